@@ -13,6 +13,14 @@ Layers
           through _set_flags_from_argv, through ReferenceTestCase.main on a
           synthetic module, and through pytest's own parser + referencepytest
   content regenerate -> normal-mode repeat for every content of the alphabet
+          (five assertion types + the two on-disk DataFrame assertions)
+  options the same with every comparison option alone
+  index   frames carrying a non-default index (named, labelled, filtered,
+          sliced, named range, multi-level, datetime) x dtype family x
+          options that refer to the index (condition on row labels, sortby on
+          index level names) and to columns, through assertDataFrameCorrect,
+          assertOnDiskDataFrameCorrect and assertOnDiskDataFramesCorrect
+  names   spellings of the reference name
   histN   BFS to depth N per (assertion type, content pair, route, start table)
   closure (thorough) BFS to the fixpoint of the whole state space per
           (assertion type, content pair, route)
@@ -178,11 +186,84 @@ FRAME_THOROUGH = FRAME_QUICK + ['Int64', 'str', 'cat', 'dt-s', 'dt-tz',
                                 'cat-int']
 
 
+# ---- the INDEX of the actual frame: every way a frame commonly comes by a
+# non-default index.  A frame id 'base@form' is the base frame (its cells, in
+# whatever order the form implies) carrying that index.
+INDEX_FORMS = ['named', 'labels', 'filtered', 'sliced', 'named-range',
+               'multi', 'dt']
+# forms all of whose index levels have a name (sortby can refer to them)
+NAMED_INDEX_FORMS = ('named', 'named-range', 'multi', 'dt')
+
+
+def with_index(df, form):
+    """df with a non-default index, built the way user code builds one."""
+    import numpy as np
+    import pandas as pd
+    n = len(df)
+    if form == 'named':
+        # set_index('id') on an unordered integer key
+        out = df.copy()
+        out.insert(0, 'id', np.array(
+            [((7 * i + 3) % (n + 5)) * 10 for i in range(n)], dtype='int64'))
+        return out.set_index('id')
+    if form == 'labels':
+        # unnamed row labels (strings), not in sorted order
+        out = df.copy()
+        out.index = pd.Index(['r%d' % ((i + 1) % max(n, 1))
+                              for i in range(n)], dtype=object)
+        return out
+    if form == 'filtered':
+        # a boolean-mask selection keeps the labels of the selected rows
+        big = pd.concat([df, df], ignore_index=True)
+        return big[np.arange(2 * n) % 2 == 1]
+    if form == 'sliced':
+        # a positional slice: RangeIndex that does not start at 0
+        return pd.concat([df.iloc[:1], df], ignore_index=True).iloc[1:]
+    if form == 'named-range':
+        out = df.copy()
+        out.index.name = 'id'
+        return out
+    if form == 'multi':
+        out = df.copy()
+        out.index = pd.MultiIndex.from_arrays(
+            [['g%d' % (i % 2) for i in range(n)],
+             [n - i for i in range(n)]], names=['g', 'id'])
+        return out
+    if form == 'dt':
+        out = df.copy()
+        out.index = pd.DatetimeIndex(
+            pd.to_datetime(['2001-01-%02d' % (n - i) for i in range(n)]),
+            name='ts')
+        return out
+    raise KeyError(form)
+
+
+def index_is_named(fid):
+    """Static (no pandas): does every index level of this frame have a name?"""
+    if '@' in fid:
+        return fid.split('@', 1)[1] in NAMED_INDEX_FORMS
+    return fid == 'index-named'
+
+
+def index_class(df):
+    """'default' (what a frame gets when nothing is said about its index and
+    what dropping the index gives) or 'non-default'."""
+    import pandas as pd
+    ix = df.index
+    if isinstance(ix, pd.RangeIndex) and ix.name is None and \
+            ix.start == 0 and ix.step == 1:
+        return 'default'
+    return 'non-default'
+
+
 def make_frame(fid):
     """Small frames, one per dtype family (built fresh each time)."""
     import numpy as np
     import pandas as pd
     o = object
+    if '@' in fid:
+        base, form = fid.split('@', 1)
+        return with_index(make_frame(base), form)
     if fid == 'A':
         return pd.DataFrame({'a': [1, 2], 'b': [0.5, 1.5]})
     if fid == 'B':
@@ -258,12 +339,17 @@ def frame_fingerprint(df):
 
 
 TYPES = ('string', 'file', 'files', 'binary', 'frame')
+# the other assertions whose reference is a DataFrame saved as parquet: the
+# actual result is itself a serialised frame on disk (one file / a list)
+DISK_TYPES = ('diskframe', 'diskframes')
+FRAME_TYPES = ('frame',) + DISK_TYPES
 TSHORT = {'string': 's', 'file': 'f', 'files': 'm', 'binary': 'b',
-          'frame': 'd'}
+          'frame': 'd', 'diskframe': 'k', 'diskframes': 'n'}
 
 
 EXT = {'string': '.txt', 'file': '.txt', 'files': '.txt', 'binary': '.bin',
-       'frame': '.parquet'}
+       'frame': '.parquet', 'diskframe': '.parquet',
+       'diskframes': '.parquet'}
 # reference-name alphabet: how the name is spelled (same for every type),
 # plus, per type, the other extensions the API tells apart by extension
 NAME_VARIANTS = ['lower', 'upper', 'mixed', 'twodots', 'subdir', 'unicode',
@@ -275,7 +361,7 @@ PARQUET_VARIANTS = ('lower', 'upper', 'mixed', 'twodots', 'subdir', 'unicode')
 
 
 def name_variants(atype):
-    if atype == 'frame':
+    if atype in FRAME_TYPES:
         return NAME_VARIANTS_FRAME
     if atype == 'binary':
         return NAME_VARIANTS
@@ -308,6 +394,8 @@ def ref_names(atype, kind, variant='lower'):
     k = kname(kind)
     if atype == 'files':
         stems = ['m1_%s' % k, 'm2_%s' % k]
+    elif atype == 'diskframes':
+        stems = ['n1_%s' % k, 'n2_%s' % k]
     else:
         stems = ['%s_%s' % (TSHORT[atype], k)]
     return [spell(st, EXT[atype], variant) for st in stems]
@@ -336,6 +424,17 @@ FRAME_OPTIONS = ['none', 'check_data=False', 'check_data=list',
                  'check_order=list', 'precision', 'sortby=list',
                  'sortby=True', 'condition', 'type_matching=medium',
                  'type_matching=permissive']
+# the same options referring to the INDEX of the frame instead of a column
+# (row labels in a condition; index level names in sortby, which pandas'
+# sort_values accepts wherever it accepts column names)
+FRAME_INDEX_OPTIONS = ['condition=index-isin', 'condition=index-ne',
+                       'sortby=index', 'sortby=index+col']
+FRAME_OPTIONS += FRAME_INDEX_OPTIONS
+
+
+def frame_option_applies(optid, fid):
+    """sortby can name the index only if its levels have names."""
+    return not optid.startswith('sortby=index') or index_is_named(fid)
 
 
 def frame_options(optid, df):
@@ -352,6 +451,19 @@ def frame_options(optid, df):
         return {'precision': 2}
     if optid == 'condition':
         return {'condition': lambda d: d[first[0]].notna()}
+    if optid == 'condition=index-isin':
+        keep = list(df.index)[::2]              # every other row, by label
+        return {'condition': lambda d: d.index.isin(keep)}
+    if optid == 'condition=index-ne':
+        labels = list(df.index)
+        if not labels:
+            return {'condition': lambda d: d.index.isin([])}
+        return {'condition': lambda d: d.index != labels[0]}
+    if optid in ('sortby=index', 'sortby=index+col'):
+        names = list(df.index.names)
+        if any(n is None for n in names):
+            raise KeyError('%s on a frame with an unnamed index' % optid)
+        return {'sortby': names + (first if optid.endswith('+col') else [])}
     if optid.startswith('type_matching='):
         return {'type_matching': optid.split('=')[1]}
     raise KeyError(optid)
@@ -365,11 +477,23 @@ def option_ids(atype):
         return ids
     if atype == 'frame':
         return list(FRAME_OPTIONS)
+    if atype in DISK_TYPES:
+        # the on-disk assertions have no type_matching parameter
+        return [o for o in FRAME_OPTIONS if not o.startswith('type_matching')]
     return ['none']
 
 
 def second_text(t):
     return t + 'second file\n'
+
+
+def second_frame(df):
+    """The second actual of a multi-frame assertion: same rows and index,
+    one more column."""
+    import numpy as np
+    out = df.copy()
+    out['second'] = np.arange(len(df), dtype='float64') + 0.5
+    return out
 
 
 # ------------------------------------------------------------------ argv menus
@@ -721,6 +845,17 @@ class World(object):
                     kw.pop('__frame__')
                     kw.update(frame_options(opts['__frame__'], df))
                 inst.assertDataFrameCorrect(df, names[0], **kw)
+            elif atype in DISK_TYPES:
+                if opts and '__frame__' in kw:
+                    kw.pop('__frame__')
+                    kw.update(frame_options(opts['__frame__'],
+                                            make_frame(actual['fid'])))
+                if atype == 'diskframe':
+                    inst.assertOnDiskDataFrameCorrect(actual['dpaths'][0],
+                                                      names[0], **kw)
+                else:
+                    inst.assertOnDiskDataFramesCorrect(
+                        list(actual['dpaths']), list(names), **kw)
             else:
                 raise KeyError(atype)
         except AssertionError as e:
@@ -769,7 +904,7 @@ class Content(object):
         self.ids = {'A': ida, 'B': idb}
         self.variant = variant
         self.optid = optid
-        if atype == 'frame':
+        if atype in FRAME_TYPES:
             self.opts = {} if optid == 'none' else {'__frame__': optid}
         elif optid == 'encoding':
             self.opts = ({'encodings': ['utf-8', 'utf-8']} if atype == 'files'
@@ -799,9 +934,22 @@ class Content(object):
                     f.write(BYTES[cid])
                 a['bpath'] = p
                 a['bytes'] = BYTES[cid]
-            else:
+            elif atype == 'frame':
                 a['fid'] = cid
-                a['fp'] = frame_fingerprint(make_frame(cid))
+                a['fps'] = [frame_fingerprint(make_frame(cid))]
+            else:
+                # actual frames on disk, written by pandas itself
+                import pandas as pd
+                a['fid'] = cid
+                df = make_frame(cid)
+                a['dpaths'] = []
+                a['fps'] = []
+                for i, d in enumerate([df, second_frame(df)]):
+                    p = os.path.join(world.d['act'],
+                                     'act_%s_%d.parquet' % (x, i))
+                    d.to_parquet(p)
+                    a['dpaths'].append(p)
+                    a['fps'].append(frame_fingerprint(pd.read_parquet(p)))
             self.actual[x] = a
 
     def names(self, kind):
@@ -823,7 +971,7 @@ class Content(object):
         except FileNotFoundError:
             return None
         h = hashlib.sha1(raw).hexdigest()[:12]
-        second = os.path.basename(name).lower().startswith('m2_')
+        second = os.path.basename(name).lower().startswith(('m2_', 'n2_'))
         key = (second, h)
         if key in self.cache:
             return self.cache[key]
@@ -847,31 +995,45 @@ class Content(object):
                     got = frame_fingerprint(pd.read_parquet(p))
                 except Exception:
                     continue
-                if got == a['fp']:
+                if got == a['fps'][1 if second else 0]:
                     hits += x
         r = hits or ('other:' + h)
         self.cache[key] = r
         return r
 
-    def cause(self, x, name, kind):
+    def cause(self, x, name, kind, outcome='fail'):
         """Root-cause discriminator for 'regenerated reference fails': for
         frames the dtype changes of the parquet round trip (read back with
-        pandas alone), otherwise the content id."""
+        pandas alone) or, failing that (and first when the comparison did not
+        merely fail but raised), a change of the index; otherwise the
+        content id."""
         if self.atype in ('string', 'file', 'files'):
             return text_feature(TEXTS[self.ids[x]])
-        if self.atype != 'frame':
+        if self.atype not in FRAME_TYPES:
             return self.ids[x]
         try:
             import pandas as pd
             got = pd.read_parquet(self.w.ref_path(name, kind))
-            want = make_frame(self.ids[x])
+            if self.atype == 'frame':
+                want = make_frame(self.ids[x])
+            else:
+                want = pd.read_parquet(self.actual[x]['dpaths'][0])
             ch = sorted(set('%s->%s' % (want[c].dtype, got[c].dtype)
                             for c in want.columns if c in got.columns
                             and str(want[c].dtype) != str(got[c].dtype)))
             if list(got.columns) != list(want.columns):
                 ch.append('columns')
+            ix = None
+            if index_class(want) != index_class(got) or \
+                    list(want.index.names) != list(got.index.names) or \
+                    [str(v) for v in want.index] != [str(v) for v in got.index]:
+                ix = 'index[%s->%s]' % (index_class(want), index_class(got))
+            if ix and outcome.startswith('error'):
+                return ix
             if ch:
                 return 'dtype[%s]' % ','.join(ch)
+            if ix:
+                return ix
         except Exception as e:
             return 'unreadable:%s' % type(e).__name__
         return self.ids[x]
@@ -948,13 +1110,16 @@ class Explorer(object):
         self.subinfo = subinfo
         # discriminators appended to signatures of this case
         self.tail = ''
-        if optid != 'none':
+        if optid in FRAME_INDEX_OPTIONS:
+            # which labels / which further columns is not part of the cause
+            self.tail += ':opt=%s=index' % optid.split('=')[0]
+        elif optid != 'none':
             self.tail += ':opt=' + optid
         if variant != 'lower':
             self.tail += ':name=' + variant
         # the follow-up verdict is only demanded where the statement speaks:
         # frames saved as parquet (any spelling of the extension)
-        self.followup_specified = not (atype == 'frame' and
+        self.followup_specified = not (atype in FRAME_TYPES and
                                        variant not in PARQUET_VARIANTS)
 
     # -- build a state from its history on a clean sandbox (no checking)
@@ -1123,7 +1288,7 @@ class Explorer(object):
                 R.unspec += 1
                 passes = None
             if passes is True and outcome != 'pass':
-                cause = c.cause(x, refs[0], kind)
+                cause = c.cause(x, refs[0], kind, outcome)
                 self.viol('regenerated-reference-fails:%s:%s:%s%s' % (
                     tname, cause, outcome,
                     self.sig_tail(kind, x)),
@@ -1196,7 +1361,7 @@ class Explorer(object):
                 R.unspec += 1
                 return nms, tag + '+followup-unspecified:' + out2
             if out2 != 'pass':
-                cause = c.cause(x, refs[0], kind)
+                cause = c.cause(x, refs[0], kind, out2)
                 self.viol('regenerated-reference-fails:%s:%s:%s%s' % (
                     tname, cause, out2,
                     self.sig_tail(kind, x)),
@@ -1267,6 +1432,12 @@ def content_ids(atype, tier):
     return FRAME_THOROUGH          # every frame family in both tiers
 
 
+# base frames that get the column-oriented options under every index form
+INDEX_OPTION_BASES = ('int', 'float-nan', 'zero-rows')
+# base frames of the on-disk assertions in the index layer (quick tier)
+INDEX_DISK_BASES = ('int', 'float-nan', 'obj-none', 'dt-ns', 'zero-rows',
+                    'two-col', 'cat')
+
 HIST_STARTS = [[], [['set', 'RT', None, True]], [['set', 'RT', 'table', True]],
                [['set', 'RT', 'graph', False]]]
 
@@ -1289,6 +1460,12 @@ class C10(Check):
             'regenerating assertion and one normal-mode assertion, or an '
             'argv that selects a proper subset of kinds')
     assumptions = [
+        'frames: 20 dtype families x 8 index forms (default + 7 non-default); '
+        'options referring to the index: condition on row labels (isin / '
+        '!=), sortby on the index level names (alone / followed by a '
+        'column); the on-disk DataFrame assertions take parquet actual '
+        'files written by pandas with its defaults and are in the content, '
+        'options, index, names and hist2 layers (hist3+ only in thorough)',
         'kinds alphabet {default, table, graph}; contents: two robustly '
         'different actuals A/B per case; histories bounded by the layer '
         'depth (thorough: fixpoint of the 3-file state space per case)',
@@ -1322,10 +1499,15 @@ class C10(Check):
              ('options', 'regenerate then repeat with the same comparison '
                          'option: every option alone x contents it can act '
                          'on x assertion type'),
+             ('index', 'frames with a non-default index (named, labelled, '
+                       'filtered, sliced, named range, multi-level, '
+                       'datetime) x every dtype family x options referring '
+                       'to the index (condition on labels, sortby on level '
+                       'names) and to columns'),
              ('names', 'reference-name alphabet: extension case, no '
                        'extension, two dots, sub-directory, unicode/space, '
                        'other extensions x assertion type'),
-             ('hist2', 'BFS depth 2, full menu, 5 types x 2 routes x 4 start '
+             ('hist2', 'BFS depth 2, full menu, 7 types x 2 routes x 4 start '
                        'tables'),
              ('hist3', 'BFS depth 3')]
         if tier == 'thorough':
@@ -1356,7 +1538,7 @@ class C10(Check):
                        'argv': a}
             return
         if layer == 'content':
-            for t in TYPES:
+            for t in TYPES + DISK_TYPES:
                 for cid in content_ids(t, tier):
                     for via in ('unittest', 'pytest'):
                         yield {'mode': 'bfs', 'type': t, 'A': cid, 'B': 'Q',
@@ -1364,7 +1546,7 @@ class C10(Check):
                                'menu': 'content'}
             if tier == 'thorough':
                 # the 16 classic contents again under every table operation
-                for t in TYPES:
+                for t in TYPES + DISK_TYPES:
                     ids = content_ids(t, tier)
                     if t in ('string', 'file', 'files'):
                         ids = [c for c in TEXT_QUICK
@@ -1376,11 +1558,11 @@ class C10(Check):
                                    'depth': 2, 'menu': 'content-full'}
             return
         if layer == 'options':
-            for t in TYPES:
+            for t in TYPES + DISK_TYPES:
                 for opt in option_ids(t):
                     if opt == 'none':
                         continue
-                    if t == 'frame':
+                    if t in FRAME_TYPES:
                         ids = FRAME_THOROUGH
                         vias = ('unittest', 'pytest') if tier == 'thorough' \
                             else ('unittest',)
@@ -1390,14 +1572,46 @@ class C10(Check):
                                             if c not in OPT_CONTENTS]
                         vias = ('unittest', 'pytest')
                     for cid in ids:
+                        if t in FRAME_TYPES and \
+                                not frame_option_applies(opt, cid):
+                            continue
                         for via in vias:
                             yield {'mode': 'bfs', 'type': t, 'A': cid,
                                    'B': 'Q', 'via': via, 'start': [],
                                    'depth': 2, 'menu': 'mini', 'opt': opt}
             return
+        if layer == 'index':
+            vias = ('unittest', 'pytest') if tier == 'thorough' \
+                else ('unittest',)
+            for t in FRAME_TYPES:
+                for base in FRAME_THOROUGH:
+                    # every dtype family under every index form: plain, and
+                    # with each option that refers to the index; the column-
+                    # oriented options on three base frames (numeric, with
+                    # nulls, no rows) through the in-memory assertion
+                    opts = ['none'] + FRAME_INDEX_OPTIONS
+                    if tier == 'thorough' or (t == 'frame' and
+                                              base in INDEX_OPTION_BASES):
+                        opts = option_ids(t)
+                    if t in DISK_TYPES and tier != 'thorough' and \
+                            base not in INDEX_DISK_BASES:
+                        continue
+                    for form in INDEX_FORMS:
+                        cid = '%s@%s' % (base, form)
+                        for opt in opts:
+                            if not frame_option_applies(opt, cid):
+                                continue
+                            for via in vias:
+                                c = {'mode': 'bfs', 'type': t, 'A': cid,
+                                     'B': 'Q', 'via': via, 'start': [],
+                                     'depth': 2, 'menu': 'mini'}
+                                if opt != 'none':
+                                    c['opt'] = opt
+                                yield c
+            return
         if layer == 'names':
-            for t in TYPES:
-                if t == 'frame':
+            for t in TYPES + DISK_TYPES:
+                if t in FRAME_TYPES:
                     ids = ['A', 'float-nan', 'cat']
                 elif t == 'binary':
                     ids = ['A', 'all256']
@@ -1415,7 +1629,9 @@ class C10(Check):
             return
         if layer in ('hist2', 'hist3', 'hist4'):
             depth = int(layer[-1])
-            for t in TYPES:
+            for t in TYPES + DISK_TYPES:
+                if t in DISK_TYPES and depth >= 3 and tier != 'thorough':
+                    continue
                 for via in ('unittest', 'pytest'):
                     for st in HIST_STARTS:
                         if depth >= 3 and tier != 'thorough' and (
